@@ -262,3 +262,193 @@ Proof.
       intros [F H]; discriminate.
     + rewrite P. split; [discriminate|intros [F H]; discriminate].
 Qed.
+
+(* ---------------------------------------------------------------- matching vs spec *)
+
+Lemma mtg_step {T : Type} (ml : T -> level -> nat -> bool) j x F t Ts :
+  match_topic_go ml j (x :: F) (t :: Ts) =
+  match x with
+  | Multi => ml t Multi j
+  | _ => ml t x j && match_topic_go ml (S j) F Ts
+  end.
+Proof. destruct x; cbn [match_topic_go]; destruct (ml t _ j); reflexivity. Qed.
+
+Lemma no_wild_starts l : no_wild l = true -> starts_wild l = false.
+Proof.
+  destruct l as [|c l]; [reflexivity|].
+  rewrite no_wild_cons. unfold starts_wild, is_wild_char, sPLUS, sHASH.
+  destruct ((c =? 43) || (c =? 35)); [discriminate|reflexivity].
+Qed.
+
+Lemma plv_plain idx l x : plv idx l (Some x) -> x <> Single -> x <> Multi ->
+  is_hash l = false /\ is_plus l = false /\ starts_wild l = false /\
+  forall tl j, match_level_str tl x j = bytes_eqb l tl.
+Proof.
+  inversion 1; subst; intros; try congruence.
+  - repeat split.
+  - repeat split; auto using no_wild_starts. intros tl j. cbn [match_level_str].
+    destruct (bytes_eqb l tl) eqn:E; [|apply andb_false_r].
+    apply bytes_eqb_eq in E. subst tl. now rewrite andb_true_r.
+  - repeat split; auto using no_wild_starts.
+Qed.
+
+Lemma match_tail ls : forall idx F, parse_levels idx ls = Some F ->
+  forall Ts j, match_topic_go match_level_str (S j) F Ts = lmatch ls Ts.
+Proof.
+  induction ls as [|l r IH]; intros idx F; cbn [parse_levels].
+  - intros [= <-] Ts j. destruct Ts; reflexivity.
+  - pose proof (parse_level_plv idx l) as P.
+    destruct (parse_level idx l) as [x|]; [|discriminate].
+    destruct (parse_levels (S idx) r) as [F'|] eqn:E; [|discriminate].
+    intros [= <-] Ts j. cbn [lmatch].
+    inversion P; subst.
+    + change (is_hash [43]) with false. cbv iota.
+      destruct Ts as [|tl Ts]; [reflexivity|].
+      rewrite mtg_step. change (is_plus [43]) with true.
+      cbn [match_level_str Nat.eqb andb orb negb]. apply (IH _ _ E).
+    + change (is_hash [35]) with true. destruct Ts; reflexivity.
+    + destruct (plv_plain _ _ _ P) as (Hh & Hp & _ & Hm); [discriminate..|].
+      rewrite Hh, Hp. destruct Ts as [|tl Ts]; [reflexivity|].
+      rewrite mtg_step, Hm. cbn [orb]. f_equal. apply (IH _ _ E).
+    + destruct (plv_plain _ _ _ P) as (Hh & Hp & _ & Hm); [discriminate..|].
+      rewrite Hh, Hp. destruct Ts as [|tl Ts]; [reflexivity|].
+      rewrite mtg_step, Hm. cbn [orb]. f_equal. apply (IH _ _ E).
+    + destruct (plv_plain _ _ _ P) as (Hh & Hp & _ & Hm); [discriminate..|].
+      rewrite Hh, Hp. destruct Ts as [|tl Ts]; [reflexivity|].
+      rewrite mtg_step, Hm. cbn [orb]. f_equal. apply (IH _ _ E).
+Qed.
+
+Lemma starts_wild_levels f l ls : levels f = l :: ls -> starts_wild f = starts_wild l.
+Proof.
+  destruct f as [|c r]; cbn [levels].
+  - intros [= <- <-]; reflexivity.
+  - destruct (levels_cons r) as [l' [ls' E]]; rewrite E.
+    unfold sSLASH; destruct (N.eqb_spec c 47).
+    + subst c; intros [= <- <-]; reflexivity.
+    + intros [= <- <-]; reflexivity.
+Qed.
+
+Lemma starts_dollar_levels t l ls : levels t = l :: ls -> starts_dollar t = is_system l.
+Proof.
+  destruct t as [|c r]; cbn [levels].
+  - intros [= <- <-]; reflexivity.
+  - destruct (levels_cons r) as [l' [ls' E]]; rewrite E.
+    unfold sSLASH; destruct (N.eqb_spec c 47).
+    + subst c; intros [= <- <-]; reflexivity.
+    + intros [= <- <-]; reflexivity.
+Qed.
+
+Lemma match_is_spec : forall f F t,
+  parse f = inl F -> spec_topic_name t = true -> matches_topic F t = spec_matchb f t.
+Proof.
+  intros f F t H _. apply parse_inv in H as (_ & P & _).
+  unfold matches_topic, spec_matchb. rewrite split_levels.
+  destruct (levels_cons f) as [l [ls E]]. destruct (levels_cons t) as [tl [Ts Et]].
+  rewrite (starts_wild_levels _ _ _ E), (starts_dollar_levels _ _ _ Et), E, Et.
+  rewrite E in P. cbn [parse_levels] in P.
+  pose proof (parse_level_plv 0 l) as PL.
+  destruct (parse_level 0 l) as [x|]; [|discriminate].
+  destruct (parse_levels 1 ls) as [F'|] eqn:E2; [|discriminate].
+  injection P as <-.
+  rewrite mtg_step. cbn [lmatch].
+  inversion PL; subst.
+  - change (starts_wild [43]) with true; change (is_hash [43]) with false;
+      change (is_plus [43]) with true.
+    cbn [match_level_str Nat.eqb andb orb]. destruct (is_system tl); cbn [negb andb]; [reflexivity|].
+    apply (match_tail _ _ _ E2).
+  - change (starts_wild [35]) with true; change (is_hash [35]) with true.
+    cbn [match_level_str Nat.eqb andb orb]. destruct (is_system tl); reflexivity.
+  - destruct (plv_plain _ _ _ PL) as (Hh & Hp & Hs & Hm); [discriminate..|].
+    rewrite Hh, Hp, Hs, Hm. cbn [andb orb]. f_equal. apply (match_tail _ _ _ E2).
+  - destruct (plv_plain _ _ _ PL) as (Hh & Hp & Hs & Hm); [discriminate..|].
+    rewrite Hh, Hp, Hs, Hm. cbn [andb orb]. f_equal. apply (match_tail _ _ _ E2).
+  - destruct (plv_plain _ _ _ PL) as (Hh & Hp & Hs & Hm); [discriminate..|].
+    rewrite Hh, Hp, Hs, Hm. cbn [andb orb]. f_equal. apply (match_tail _ _ _ E2).
+Qed.
+
+(* ---------------------------------------------------------------- covering is sound *)
+
+Definition lvl_ok (g : level) : Prop :=
+  match g with Normal r => is_system r = false | _ => True end.
+
+Definition hd_ok (G : filter) : Prop :=
+  match G with g :: _ => lvl_ok g | [] => True end.
+
+Lemma level_is_multi (f : level) : f = Multi \/ f <> Multi.
+Proof. destruct f; (left; reflexivity) || (right; discriminate). Qed.
+
+Lemma mtg_step_nm {T : Type} (ml : T -> level -> nat -> bool) j x F t Ts :
+  x <> Multi ->
+  match_topic_go ml j (x :: F) (t :: Ts) = ml t x j && match_topic_go ml (S j) F Ts.
+Proof. intros H. rewrite mtg_step. destruct x; congruence. Qed.
+
+Lemma lvl_multi_false f i : f <> Multi -> match_level_lvl Multi f i = false.
+Proof. destruct f; intros; try congruence; cbn; now rewrite ?andb_false_r. Qed.
+
+Ltac bsplit :=
+  repeat match goal with
+         | H : _ && _ = true |- _ => apply andb_true_iff in H; destruct H
+         | H : bytes_eqb _ _ = true |- _ => apply bytes_eqb_eq in H; subst
+         end.
+
+Lemma lvl_trans f g tl i : (i = 0%nat -> lvl_ok g) -> f <> Multi ->
+  match_level_lvl g f i = true -> match_level_str tl g i = true ->
+  match_level_str tl f i = true.
+Proof.
+  intros Hok Hf H1 H2.
+  destruct i as [|i]; destruct f, g;
+    cbn [match_level_lvl match_level_str level_eqb Nat.eqb andb negb lvl_ok] in *;
+    try congruence; try discriminate; bsplit; try specialize (Hok eq_refl);
+    rewrite ?bytes_eqb_refl, ?andb_true_r; auto.
+  - rewrite Hok. reflexivity.
+  - destruct tl; [reflexivity|discriminate].
+Qed.
+
+Lemma cover_gen F : forall G Ts i, (i = 0%nat -> hd_ok G) ->
+  match_topic_go match_level_lvl i F G = true ->
+  match_topic_go match_level_str i G Ts = true ->
+  match_topic_go match_level_str i F Ts = true.
+Proof.
+  induction F as [|f F IH]; intros G Ts i Hok H1 H2.
+  - destruct G; [exact H2|discriminate].
+  - destruct (level_is_multi f) as [->|Hf].
+    + destruct Ts as [|tl Ts]; [reflexivity|].
+      rewrite mtg_step. destruct i as [|i]; [|reflexivity].
+      specialize (Hok eq_refl).
+      destruct G as [|g G]; [discriminate|].
+      rewrite mtg_step in H1. rewrite mtg_step in H2.
+      destruct g; cbn [match_level_lvl match_level_str Nat.eqb andb negb hd_ok lvl_ok] in *;
+        try discriminate; bsplit; auto.
+      * rewrite Hok. reflexivity.
+      * destruct tl; [reflexivity|discriminate].
+    + destruct G as [|g G].
+      { destruct f; try discriminate; congruence. }
+      destruct (level_is_multi g) as [->|Hg].
+      { rewrite mtg_step_nm in H1 by assumption.
+        rewrite lvl_multi_false in H1 by assumption. discriminate. }
+      destruct Ts as [|tl Ts].
+      { destruct g; try discriminate; congruence. }
+      rewrite mtg_step_nm in H1 by assumption. rewrite mtg_step_nm in H2 by assumption.
+      rewrite mtg_step_nm by assumption. bsplit.
+      apply andb_true_iff; split.
+      * eapply lvl_trans; eauto.
+      * eapply IH; eauto. intros; discriminate.
+Qed.
+
+Lemma parse_hd_ok g G : parse g = inl G -> hd_ok G.
+Proof.
+  intros H. apply parse_inv in H as (_ & P & _).
+  destruct (levels_cons g) as [l [ls E]]. rewrite E in P. cbn [parse_levels] in P.
+  pose proof (parse_level_plv 0 l) as PL.
+  destruct (parse_level 0 l) as [x|]; [|discriminate].
+  destruct (parse_levels 1 ls) as [G'|]; [|discriminate].
+  injection P as <-. inversion PL; subst; cbn; auto.
+Qed.
+
+Lemma cover_sound : forall f g F G t,
+  parse f = inl F -> parse g = inl G -> matches_filter F G = true ->
+  spec_topic_name t = true -> matches_topic G t = true -> matches_topic F t = true.
+Proof.
+  intros f g F G t _ HG HC _ HM. unfold matches_topic, matches_filter in *.
+  eapply cover_gen; eauto. intros _. eapply parse_hd_ok; eauto.
+Qed.
